@@ -201,6 +201,36 @@ def _replay_randint(a, b, draws):
         D._rng = saved
 
 
+_HASHSEED_SCRIPT = r"""
+import sys
+sys.path.insert(0, sys.argv[1])
+from cspuz.generator import Choice, ArrayBuilder2D, build_neighbor_generator
+import cspuz.generator.srandom as srandom
+srandom.use_deterministic_prng(True, seed=7)
+pat = [Choice(["..", "^1", "v2", "<0", ">3", "??"], default=".."), ArrayBuilder2D(1, 2, ["a", "bb", "c"], default="a")]
+ini, gen = build_neighbor_generator(pat)
+print(repr(ini)); print(repr(list(gen(ini))))
+"""
+
+
+def table_hashseed(rep):
+    """same seed => same candidates in *another interpreter process* with another string-hash randomisation
+    (finite table: 4 processes; no solver involved, labelled)"""
+    import subprocess
+    import sys
+    outs = set()
+    for hs in ("0", "1", "2", "12345"):
+        rep.finite_tables += 1
+        env = dict(os.environ)
+        env["PYTHONHASHSEED"] = hs
+        p = subprocess.run([sys.executable, "-B", "-c", _HASHSEED_SCRIPT, common.REPO], env=env, stdout=subprocess.PIPE, stderr=subprocess.PIPE,
+                           text=True, timeout=120)
+        outs.add(p.stdout if p.returncode == 0 else "ERROR:" + p.stderr[-300:])
+    if len(outs) != 1:
+        rep.counterexample("reproducible:across-processes", "the candidate sequence for string-valued builders differs between interpreter "
+                           "processes with different PYTHONHASHSEED (same PRNG seed)", {"engine": "table", "what": "hashseed"}, True)
+
+
 def run(tier, only=None):
     rep = common.Report("C19", tier, "other", FILES)
     try:
@@ -225,6 +255,7 @@ def run(tier, only=None):
     if only:
         conds = [c for c in conds if only in c.name]
     runner.run_conditions(rep, conds)
+    table_hashseed(rep)
     rep.functions = ["deterministic_random.XorShift.__init__ / next (AST->z3, 64-bit vectors)", "deterministic_random.randint (AST->z3, "
                      "mathematical ints, loop unrolled 2x)", "deterministic_random.choice / shuffle / random", "srandom dispatch",
                      "builder.build_neighbor_generator / Choice / ArrayBuilder2D", "segmentation.SegmentationBuilder2D.initial / candidates "
@@ -250,6 +281,12 @@ def run(tier, only=None):
 def replay(payload, verbose=False):
     if payload.get("engine") == "B":
         return runner.generic_replay(payload, verbose)
+    if payload.get("what") == "hashseed":
+        rep = common.Report("C19", "quick", "other", FILES)
+        hits = []
+        rep.counterexample = lambda key, text, pl, ok: hits.append(key)   # type: ignore
+        table_hashseed(rep)
+        return bool(hits)
     rep = common.Report("C19", "quick", "other", FILES)
     hits = []
     rep.counterexample = lambda key, text, pl, ok: hits.append((key, ok))   # type: ignore
